@@ -67,7 +67,20 @@ func decNeed(text string, w, c int) int {
 }
 
 func judgeC12(hi *Hist) []*Violation {
-	if hi.Res.Outcome != simrt.OK || faulted(hi) || hi.Sc.Cont.Delay {
+	if faulted(hi) || hi.Sc.Cont.Delay {
+		return nil
+	}
+	if hi.Res.Outcome == simrt.Deadlock || hi.Res.Outcome == simrt.Hang {
+		// bars joining or leaving must not disturb the others: a bar parked for ever in the
+		// width exchange (WC.Format) is the extreme form of that
+		for _, g := range hi.Res.Live {
+			if strings.Contains(g.ParkedOn, "@decorator.go:") {
+				return []*Violation{viol("C12", "sync-stuck", "%v: a bar is parked for ever in the width exchange of a synchronised column (membership of the column went stale)\n%s", hi.Res.Outcome, describeLive(hi.Res))}
+			}
+		}
+		return nil
+	}
+	if hi.Res.Outcome != simrt.OK {
 		return nil
 	}
 	frames := ParseFrames(hi)
